@@ -16385,3 +16385,21 @@ let rec number_q s k inq ins =
 
 let number_placeholders s =
   number_q s (S O) false false
+
+(** val esc_u : classes -> nat -> bytes -> bytes **)
+
+let rec esc_u cl n1 s =
+  match n1 with
+  | O -> []
+  | S n' ->
+    (match decode_rune s with
+     | Some p ->
+       let (r, w) = p in
+       app (if is_alnum cl r then firstn w s else '\\' :: (firstn w s))
+         (esc_u cl n' (skipn w s))
+     | None -> [])
+
+(** val esc : classes -> bytes -> bytes **)
+
+let esc cl s =
+  esc_u cl (length s) s
